@@ -8,6 +8,8 @@ CONSTANTS
   MaxWrite = 1
   Validates = {FALSE, TRUE}
   SetClass = "all"
+  MaxEdit = 0
+  MaxAssign = 0
   UpdEnabled = {TRUE}
   Deviations = {"GroupPropagation"}
 VIEW vw
